@@ -13,6 +13,9 @@ NeedsCollide == [v \in {"v1"} |-> {<<"tree", "r">>, <<"tree", "x">>, <<"data", "
 
 View == <<packs, idx, snaps, now, nextp, nexti, ncmd, loc>>
 
+\* behaviours for replay on the real code: one history per distinct quiescent end state
+EmitHist == (Running = {} /\ ncmd = MaxCmds) => PrintT(<<"REPLAY", hist>>)
+
 \* quiescent: no command running
 Quiescent == Running = {}
 =============================================================================
